@@ -159,6 +159,35 @@ theorem c03_attach_to_closed_stream (s : St) (name : Nat) (useGop : Bool) (panic
   · simp [St.step, hn, hst]
   · simp [St.step, hn, hst, Cons.close]
 
+/-- The close sweep, one step, any state: ending a live stream publishes a non-OK status, zeroes
+    the counter, leaves NO consumption registered, and turns every consumption that was registered
+    into a closed one whose queue ends with the wake-up sentinel — whatever each consumer is doing
+    at that moment (stalled, discarding, mid-delivery); consumptions that were no longer registered
+    are left exactly as they were (not closed or woken a second time). -/
+theorem c03_close_sweeps_every_consumer (s : St) (hst : s.status = 0) :
+    (s.step .close).status ≠ 0 ∧ (s.step .close).count = 0 ∧
+    (∀ c ∈ (s.step .close).cons, c.registered = false) ∧
+    (∀ c ∈ s.cons, c.registered = true → c.closed = false →
+        ∃ c' ∈ (s.step .close).cons, c'.name = c.name ∧ c'.registered = false ∧ c'.closed = true ∧
+          c'.queue = c.queue ++ [none]) ∧
+    (∀ c ∈ s.cons, c.registered = false → c ∈ (s.step .close).cons) := by
+  have hst' : ¬ (s.status ≠ 0) := by simp [hst]
+  simp only [St.step, hst', if_false]
+  refine ⟨by simp, trivial, ?_, ?_, ?_⟩
+  · intro c hc
+    simp only [List.mem_map] at hc
+    obtain ⟨c0, _, rfl⟩ := hc
+    by_cases hr : c0.registered = true
+    · simp only [hr, if_true, Cons.close]; split
+      all_goals first | rfl | skip
+    · simp only [hr, Bool.false_eq_true, if_false]
+  · intro c hc hr hcl
+    refine ⟨Cons.close { c with registered := false }, ?_, ?_⟩
+    · simp only [List.mem_map]; exact ⟨c, hc, by simp [hr]⟩
+    · simp [Cons.close, hcl]
+  · intro c hc hr
+    simp only [List.mem_map]; exact ⟨c, hc, by simp [hr]⟩
+
 /-- No lost wake-up (worker layer).  With Close waking through the queue lock (the regenerated
     fact), in EVERY reachable state of the flag/queue/condition-variable protocol — every
     interleaving of the worker, any number of pushes, and the two steps of Close, including the
